@@ -139,7 +139,7 @@ theorem vp_addValued {c : CG} (v : Vtx) (x : Val) (h : VP P c) (hv : v.isValue =
   · subst h'; exact hv
 
 theorem vp_funcGraph {c : CG} (f : FuncDesc) (io : Bool) (h : VP P c)
-    (hin : ∀ val ∈ f.input.values, P (.value val.lab.name val.lab.ty val.lab.sub))
+    (hin : ∀ val ∈ f.input.values, val.lab.name ≠ "" → P (.value val.lab.name val.lab.ty val.lab.sub))
     (hout : io = true → ∀ p ∈ f.output.named, P (.value p.1 p.2.lab.ty p.2.lab.sub)) : VP P (funcGraph c f io) := by
   unfold funcGraph
   dsimp only
@@ -158,7 +158,7 @@ theorem vp_funcGraph {c : CG} (f : FuncDesc) (io : Bool) (h : VP P c)
     (by
       intro c val hval hc
       split
-      · exact vp_edge _ _ _ (vp_add _ hc (fun _ => hin val hval))
+      · next hn => exact vp_edge _ _ _ (vp_add _ hc (fun _ => hin val hval hn))
       · exact vp_edge _ _ _ (vp_add _ hc (fun h => by cases h)))
     f.input.values _ (fun _ hx => hx) h2
   split
@@ -227,20 +227,17 @@ theorem vp_phaseR7 {c : CG} (h : VP P c) : VP P (phaseR7 c) := by
   exact vp_nested _ (fun v v2 => v2.isOut && v2.ty == v.ty && v2.sub == "") _
     (vp_nested _ (fun v v2 => v2.isOut && v2.ty == v.ty && v2.sub != "") _ h)
 
-/-- every value vertex of `Prune.pre` is the vertex of a supplied named value, of a named parameter or of a
-named result of a converter -/
-theorem vp_pre (e : TypeEnv) (b : Builder) (funcs : Nat → Option FuncDesc) (target : FuncDesc)
+/-- the graph after the converters, before the rule phases -/
+def preC (b : Builder) (funcs : Nat → Option FuncDesc) (target : FuncDesc) : CG :=
+  b.convs.foldl (Prune.convStep funcs) (Prune.inputsCG (Prune.base target) b)
+
+theorem vp_preC (b : Builder) (funcs : Nat → Option FuncDesc) (target : FuncDesc)
     (hin : ∀ u ∈ Prune.inputsList b, u.isValue = true → P u)
-    (hpar : ∀ f ∈ C01.allFuncs b funcs target, ∀ val ∈ f.input.values,
+    (hpar : ∀ f ∈ C01.allFuncs b funcs target, ∀ val ∈ f.input.values, val.lab.name ≠ "" →
       P (.value val.lab.name val.lab.ty val.lab.sub))
     (hres : ∀ f ∈ b.convs.filterMap funcs, ∀ p ∈ f.output.named, P (.value p.1 p.2.lab.ty p.2.lab.sub)) :
-    VP P (Prune.pre e b funcs target) := by
-  unfold Prune.pre
-  apply vp_phaseR7
-  apply vp_phaseR6
-  apply vp_phaseR5
-  apply vp_phaseR4
-  apply vp_phaseR3
+    VP P (preC b funcs target) := by
+  unfold preC
   refine CGE.foldl_inv (VP P) (fun fid => fid ∈ b.convs) (Prune.convStep funcs) ?_ _ _ (fun _ hx => hx) ?_
   · intro c fid hfid hc
     unfold Prune.convStep
@@ -255,6 +252,19 @@ theorem vp_pre (e : TypeEnv) (b : Builder) (funcs : Nat → Option FuncDesc) (ta
     refine vp_add (P := P) (c := CG.empty) Vtx.root ?_ (fun h => by cases h)
     intro v hv
     simp [CG.empty, AGraph.empty] at hv
+
+/-- every value vertex of `Prune.pre` is the vertex of a supplied named value, of a named parameter or of a
+named result of a converter -/
+theorem vp_pre (e : TypeEnv) (b : Builder) (funcs : Nat → Option FuncDesc) (target : FuncDesc)
+    (hin : ∀ u ∈ Prune.inputsList b, u.isValue = true → P u)
+    (hpar : ∀ f ∈ C01.allFuncs b funcs target, ∀ val ∈ f.input.values, val.lab.name ≠ "" →
+      P (.value val.lab.name val.lab.ty val.lab.sub))
+    (hres : ∀ f ∈ b.convs.filterMap funcs, ∀ p ∈ f.output.named, P (.value p.1 p.2.lab.ty p.2.lab.sub)) :
+    VP P (Prune.pre e b funcs target) := by
+  have h := vp_preC b funcs target hin hpar hres
+  unfold preC at h
+  unfold Prune.pre
+  exact vp_phaseR7 (vp_phaseR6 (vp_phaseR5 (vp_phaseR4 (vp_phaseR3 h))))
 
 end VP
 
@@ -369,7 +379,7 @@ theorem pre_valueVerts {e : TypeEnv} {b : Builder} {funcs : Nat → Option FuncD
       unfold nameLabels
       exact List.mem_append_left _ (List.mem_map.2 ⟨p, hp, rfl⟩)
     · cases hv
-  · intro f hf val hval
+  · intro f hf val hval _
     have hl : val.lab ∈ f.input.labels := List.mem_map.2 ⟨val, hval, rfl⟩
     refine ⟨(H.labs f hf).1 _ hl, val.lab, ?_, rfl, rfl⟩
     unfold nameLabels
@@ -760,7 +770,8 @@ theorem redefine_succeeds (H : Hyps e b funcs target) (ht : ImplTrans e)
   have hrec : RecSpec (rctx e b funcs target fin outCount)
       (fun v st => reach (rctx e b funcs target fin outCount) true (m + 1) [.func target.key] v st) :=
     fun k s hall => reach_all_present' _ gf.sri gf.auto true m [.func target.key] (.func k) s hall
-  obtain ⟨hE, hO⟩ := reach_top' gf (m + 1) hrec _ (initSt_sinvR H fin outCount orc)
+  obtain ⟨hE, hO⟩ := reach_top' (E := Allowed True) gf (fun ε hn => Or.inr ⟨⟨ε, rfl⟩, hn⟩)
+    (fun w => Or.inl ⟨w, rfl⟩) (m + 1) (RecSpecE.of_recSpec hrec) _ (initSt_sinvR H fin outCount orc)
     (by simp [initSt])
   have hadj := RedefineInputs.reach_inputSet (rctx e b funcs target fin outCount) gf.sri true (m + 1 + 1) []
     (.func target.key) (initSt (callGraph {} e b funcs target true fin).cg [] orc)
@@ -775,7 +786,7 @@ theorem redefine_succeeds (H : Hyps e b funcs target) (ht : ImplTrans e)
     · exact Or.inr ⟨w, rfl⟩
     · exact absurd trivial hn
   · rw [hres] at hO hadj
-    have hnd := hO am rfl
+    have hnd := (hO am rfl).1
     dsimp only at hnd hadj ⊢
     have hf : fieldsOK (declaredInputs s.inputSet (callGraph {} e b funcs target true fin).inputs) = true := by
       apply fieldsOK_declared b (C01.allFuncs b funcs target) _ _ hnd _ hnames
